@@ -84,6 +84,11 @@ CLAIMS = {
    ref="§4 C15",
    note="Weak: the truth of each transfer rule (e.g. 'dereference implies non-nil') is assumed; instruction/builtin coverage is decided under C03.",
    technique="constant struct-literal evaluation from SSA stores + guard-edge/dominance rules + merge-table evaluation"),
+ "C16": dict(
+   text="Narrow structural part only: diagnostics have one producer (report.Report) whose Pos/End come from one getRange call on the reported node, getRange/shortRange anchor start and end in the same node; every analysis.TextEdit literal takes Pos and End from one ranger (or End = Pos + length); the runner converts all six positions with the same //line-aware function and file set, each from its matching source field; fixes and related information are forwarded unchanged. Whether edits parse, type-check or preserve behaviour is not decided.",
+   ref="§4 C16",
+   note="Manually built edit.Range{a, b} pairs (12 sites) and all replacement texts are outside these rules.",
+   technique="who-may-construct/who-may-call rules + Pos/End value-origin pairing on SSA"),
 }
 
 NOT_APPLICABLE = {
